@@ -71,13 +71,40 @@ def z_r1_grammar(p: Project, rep: Report):
     h = D.family(dt, "convert").get("str")
     if h is None:
         raise AnalysisError("DateTime str reader not found")
-    cfg = h.cfg
-    guards = [n for n in cfg.nodes if n.kind == "test" and any(isinstance(s, ast.Raise) for s in n.stmt.body) and text(norm(n.stmt.test)) in ("match is None", "not match")]
-    uses = [n for n in cfg.nodes if any(isinstance(x, ast.Attribute) and x.attr in ("groupdict", "group", "groups") for e in n.exprs() for x in ast.walk(e))]
-    ok = bool(guards) and bool(uses) and all(cfg.dominated_by(u.id, [g.id for g in guards]) for u in uses)
-    rep.check("Z-R1", "DateTime._convert_str:no-match-raises", ok, "a text that does not match the grammar is not rejected before its fields are used" if not ok else "", tloc(p, h.fn))
-    ex = Expander(h.fn)
-    m = [s for s in own_statements(h.fn) if isinstance(s, ast.Assign) and isinstance(s.value, ast.Call) and isinstance(s.value.func, ast.Attribute) and s.value.func.attr in ("match", "fullmatch", "search")]
+    from . import paths as _PT
+
+    _rps, pl = h.return_paths()
+    cfg = pl.cfg
+    vp_ = h.value_param()
+    uses = [n for n in cfg.nodes if n.stmt is not None and n.kind not in ("join", "handlers") and any(isinstance(x, ast.Attribute) and x.attr in ("groupdict", "group", "groups") for e in n.exprs() for x in ast.walk(e))]
+    ok = bool(uses)
+    undecided = False
+    for u in uses:
+        for q in pl:
+            cb = q.conds_before(u.id)
+            if cb is None:
+                continue
+            goal = []
+            for c_, _w in cb:
+                for a in c_.atoms():
+                    if a.endswith(f"match({vp_}) is None"):
+                        goal.append(_PT.atom(a, False))
+                    elif a.startswith("bool(") and a.endswith(f"match({vp_}))"):
+                        goal.append(_PT.atom(a, True))
+            if not goal:
+                ok = False
+                continue
+            r_ = _PT.implies(cb, _PT.any_of(*goal))
+            if r_ is False:
+                ok = False
+            elif r_ is None:
+                undecided = True
+    if undecided and ok:
+        rep.note("Z-R1 undecided: too many conditions before the match fields are used")
+    else:
+        rep.check("Z-R1", "DateTime._convert_str:no-match-raises", ok, "a text that does not match the grammar is not rejected before its fields are used" if not ok else "", tloc(p, h.fn))
+    ex = Expander(h.ffn)
+    m = [s for s in own_statements(h.ffn) if isinstance(s, ast.Assign) and isinstance(s.value, ast.Call) and isinstance(s.value.func, ast.Attribute) and s.value.func.attr in ("match", "fullmatch", "search")]
     ok = bool(m) and all(text(s.value.func.value) == "self.regex" and s.value.func.attr in ("match", "fullmatch") for s in m)
     rep.check("Z-R1", "DateTime._convert_str:matches-self.regex", ok, "the text is not matched (anchored) against self.regex" if not ok else "", tloc(p, h.fn))
     # Time uses the same reader with its own regex
@@ -183,13 +210,47 @@ def z_r3_writer_shape(p: Project, rep: Report):
     if not decided:
         rep.note("Z-R3 undecided: sign selection not recognised")
     # --- hours / minutes split
-    dms = [c for c in ast.walk(fd) if isinstance(c, ast.Call) and isinstance(c.func, ast.Name) and c.func.id == "divmod" and len(c.args) == 2]
-    if dms:
-        for c in dms:
-            a0 = ex.t(c.args[0])
-            ok = a0.startswith("abs(") and text(c.args[1]) == "60"
-            rep.check("Z-R3", "format_datetime:hours-mins-split", ok, f"hours/minutes are computed as divmod({a0}, {text(c.args[1])}): for negative offsets floor division gives the wrong hours/minutes unless the absolute value is split" if not ok else "", tloc(p, fd0))
-    else:
+    from . import paths as _PT
+
+    try:
+        fpl = _PT.enumerate_paths(fd, None, Expander(fd))
+    except AnalysisError as e:
+        fpl = None
+        rep.note(f"Z-R3 undecided: {e}")
+    n_split = 0
+    if fpl is not None:
+        fcfg = fpl.cfg
+        verdict, seen_any, why_ = True, False, ""
+        for n_ in fcfg.nodes:
+            if n_.stmt is None or n_.kind in ("join", "handlers"):
+                continue
+            for c in n_.calls():
+                if not (isinstance(c.func, ast.Name) and c.func.id == "divmod" and len(c.args) == 2 and text(c.args[1]) == "60"):
+                    continue
+                n_split += 1
+                for q in fpl:
+                    i = q.index_of(n_.id)
+                    if i is None:
+                        continue
+                    seen_any = True
+                    v = _PT.value_on_path(q, fcfg, c.args[0], upto=i)
+                    facts = _PT.simple_conds(q.conds_before(n_.id) or [])
+                    tv = text(v)
+                    if isinstance(v, ast.Call) and text(v.func) == "abs":
+                        continue
+                    inner = v.operand if isinstance(v, ast.UnaryOp) and isinstance(v.op, ast.USub) else None
+                    if inner is not None and facts.get(f"{text(inner)} < 0") is True:
+                        continue
+                    if inner is None and facts.get(f"{tv} < 0") is False:
+                        continue
+                    if any(tv in a or (inner is not None and text(inner) in a) for a in facts):
+                        rep.note(f"Z-R3 undecided: sign of {tv[:50]} at the split not decided by {sorted(facts)[:3]}")
+                        verdict = None if verdict is True else verdict
+                        continue
+                    verdict, why_ = False, tv
+        if seen_any and verdict is not None:
+            rep.check("Z-R3", "format_datetime:hours-mins-split", verdict, f"hours/minutes are computed as divmod({why_[:60]}, 60) on a path where the offset may be negative: floor division then gives the wrong hours/minutes (the absolute value must be split)" if not verdict else "", tloc(p, fd0))
+    if not n_split:
         rep.note("Z-R3 undecided: no divmod() split of the offset")
     # --- minutes format: the variable holding the minutes is the remainder of the split by 60
     minvars = set()
